@@ -30,21 +30,46 @@ def sub_reads(e, mapping):
     return tuple(sub_reads(x, mapping) for x in e)
 
 
+X = ("ref", "x")
+FUNCS = [
+    ("func", "hrelu", [("Signal", "x")], [], ("cond", ("cmp", ">", X, ("int", 0)), X)),
+    ("func", "hbump", [("Signal", "x")], [], ("bin", "+", ("bin", "*", X, ("int", 2)), ("int", 1))),
+    ("func", "hclip", [("Signal", "x")], [], ("cond", ("cmp", "<", X, ("int", 100)), X)),
+    ("func", "hid", [("Signal", "x")], [], ("bin", "+", X, ("int", 0))),
+    ("func", "hpos", [("Signal", "x")], [], ("cmp", ">", X, ("int", 3))),
+]
+
+
 def gen_mem(seed):
     for k in range(40):
         r = random.Random(seed * 40 + k)
         g = gen_rich.RichGen(r, max_depth=3)
-        st = g.inputs(r.randint(2, 3))
+        st = list(FUNCS) + g.inputs(r.randint(2, 3))
         for _ in range(r.randint(0, 2)):
             nm = next(g.names)
             st.append(("sig", nm, g.sig_expr(2)))
             g.scope.append((nm, "sig", None))
         mems = []
+        shared = None
+        if r.random() < 0.5:
+            shared = next(g.names)
+            st.append(("sig", shared, g.sig_expr(2)))
+            g.scope.append((shared, "sig", None))
         for _ in range(r.randint(1, 2)):
             m = "m" + next(g.names)
             sg = r.choice(SIGNALS[:6])
             st.append(("mem", m, sg))
-            data = ("proj", g.sig_expr(2), sg)
+            x = r.random()
+            if x < 0.45:
+                data = ("proj", g.sig_expr(2), sg)          # explicitly carried on the cell's signal
+            elif x < 0.75:
+                # a function result: its type need not be the cell's (the write converts it: a warning, not an error)
+                arg = ("ref", shared) if (shared is not None and r.random() < 0.5) else g.sig_expr(1)
+                data = ("call", r.choice(FUNCS)[1], [arg])
+            elif x < 0.85 and shared is not None:
+                data = ("call", "hid", [("ref", shared)])    # one named value written to several cells
+            else:
+                data = ("proj", ("cond", g.cmp_expr(), g.sig_expr(1)), sg)   # a conditional value
             when = g.cmp_expr() if r.random() < 0.8 else ("and", g.cmp_expr(), g.cmp_expr())
             st.append(("write", m, data, when))
             mems.append(m)
@@ -97,14 +122,31 @@ def make_items(seed, n):
 
 
 def run(tier, seed, t0):
+    def histories(items):
+        # a certificate no longer checks: look for a concrete history on which the cell misbehaves
+        import history
+        for it in items:
+            if it.status != "violation" or not getattr(it, "mems", None) or it.bpj is None:
+                continue
+            if it.detail.get("failing_input") or it.detail.get("kind", "").startswith("compile"):
+                continue
+            try:
+                h = history.gated_cell_history(it, random.Random(1))
+            except Exception as e:  # noqa: BLE001
+                h = None
+                it.detail["history_search_error"] = repr(e)[:300]
+            if h:
+                it.detail["failing_input"] = h
+
     def cov(items):
         cells = sum(getattr(it, "meta", {}).get("cells", 0) for it in items if it.status == "pass")
         probs = [(it.id, p) for it in items for p in getattr(it, "meta", {}).get("mem_problems", [])]
         return {"cells_certified": cells, "cells_not_found": probs[:5]}
 
     return c01.run(tier, seed, t0, prop=PROP, n_quick=30, n_thorough=300, make_items=make_items, files=FILES,
-                   props_file="Props/C03.v", extra_cov=cov,
-                   rule="random programs with 1-2 gated cells (data and enable arbitrary stateless expressions of the inputs, "
+                   props_file="Props/C03.v", extra_cov=cov, reclassify=histories,
+                   rule="random programs with 1-2 gated cells (data: projected on the cell's signal, a function result of another type (converted by "
+                        "the write), a named value shared by both cells, or a conditional value; enable arbitrary stateless expressions, "
                         "enable a comparison or a conjunction of comparisons), 1-3 readers per program, optionally a lamp on a "
                         "read; per blueprint one kernel-checked certificate for the readers (all inputs, all cell contents) and "
                         "for the next-state equations of every cell")
